@@ -261,7 +261,7 @@ nd::harnesses! {
         }
         assert!(core::mem::size_of::<CArcView>() == core::mem::size_of::<CArc<u32>>());
         let view = CArcView { instance: unsafe { CELLS.as_ptr() }, clone_fn: Some(f_clone), drop_fn: Some(f_drop) };
-        let a: CArc<u32> = unsafe { core::mem::transmute(view) };
+        let a: CArc<u32> = unsafe { from_view(view) };
         let path: u8 = nd::any();
         nd::assume(path < 3);
         let n = nd::range(0, 2);
